@@ -33,7 +33,7 @@ def opaque_calls(C) -> list[ast.Call]:
     M: Model = C.M
     out = []
     for c in _walk_own(M.fn.body):
-        if not isinstance(c, ast.Call):
+        if not isinstance(c, ast.Call) or getattr(c, "_ctor_inlined", False):
             continue
         ctx, orig = getattr(c, "_src", (M.V, c))
         if not isinstance(orig, ast.Call):
